@@ -14,6 +14,14 @@ def CANON(t):
     return T.canon(t, minmax=True)
 
 
+def _plain_local(body, lid):
+    """a `let`-bound local that is not a mutable reference (so assigning to it cannot be seen from outside)"""
+    b = body.binders.get(lid)
+    if b is None or b['kind'] != 'let':
+        return False
+    return not str(b['bind'].get('ty', '')).startswith('&mut')
+
+
 def raw(t):
     return T.show(CANON(t))
 
@@ -61,17 +69,31 @@ def exclusive(a, b):
 
 
 def order_effects(effects):
-    """effects are listed in evaluation order, except that a run of effects with pairwise contradictory path conditions
-    (the arms of one conditional) is sorted: `if c {f(a)} else {f(b)}` and `f(if c {a} else {b})` list the same effects"""
+    """effects are listed in evaluation order -- up to commuting effects whose path conditions are contradictory (they
+    never both happen in one execution, e.g. the arms of a conditional, or a loop-exit test and the rest of the body):
+    the canonical order is the topological order of "earlier and not exclusive", ties broken by text.  Loop heads are
+    barriers."""
     out = []
     i = 0
     while i < len(effects):
-        run = [effects[i]]
-        j = i + 1
-        while j < len(effects) and effects[j][0] == effects[i][0] and all(exclusive(effects[j][2], r[2]) for r in run):
-            run.append(effects[j])
+        if effects[i][2] is None:
+            out.append(effects[i][1])
+            i += 1
+            continue
+        j = i
+        while j < len(effects) and effects[j][2] is not None and effects[j][0] == effects[i][0]:
             j += 1
-        out.extend(sorted(t for _, t, _ in run))
+        run = effects[i:j]
+        n = len(run)
+        preds = {b: {a for a in range(b) if not exclusive(run[a][2], run[b][2])} for b in range(n)}
+        done = []
+        left = set(range(n))
+        while left:
+            ready = [b for b in left if preds[b] <= set(done)]
+            pick = min(ready, key=lambda b: run[b][1])
+            done.append(pick)
+            left.remove(pick)
+        out.extend(run[b][1] for b in done)
         i = j
     return out
 
@@ -138,6 +160,8 @@ def summarise(crate, body, args=None):
         elif k == 'assign':
             if e.get('derived'):
                 continue
+            if not e['loops'] and _plain_local(body, e.get('local')):
+                continue    # builds a local value that flows into the result: part of the value terms above
             tgt = e.get('name', '?') + ''.join('.' + f for f in e.get('fields', ()) if f != '[]')
             effects.append((ind, f"{ind}SET {tgt} := {raw(e['value'])} WHEN {pc_text(e['pc'])}", frozenset(e['pc'])))
         elif k == 'ret':
@@ -147,6 +171,9 @@ def summarise(crate, body, args=None):
         elif k == 'break':
             if id(e) in exit_ret:
                 effects.append((ind, f"{ind}RETURN {raw(exit_ret[id(e)])} WHEN {pc_text(e['pc'])}", frozenset(e['pc'])))
+            elif e.get('value') is not None and isinstance(tu, tuple) and tu and tu[0] == 'loopval' and tu[1] in e['loops'][-1:]:
+                # `break v` out of the loop whose value is the function's value: a return of v
+                effects.append((ind, f"{ind}RETURN {raw(e['value'])} WHEN {pc_text(e['pc'])}", frozenset(e['pc'])))
             else:
                 effects.append((ind, f"{ind}BREAK WHEN {pc_text(e['pc'])}", frozenset(e['pc'])))
         elif k == 'mutcall':
